@@ -24,8 +24,17 @@ def cases(tier, rng, run):
         # (a third of the calls leave the last 1-2 parameters at their DEFAULT value: a default is an argument like any other)
         omit = rng.choice([0, 0, 0, 0, 1, 2])
         kind = "method" if rng.random() < 0.2 else "func"
-        style = rng.choice(["pos", "kw", "kwrev", "mixed", "fwd", "kwonly", "posonly"] + (["kwself", "kwself"] if kind == "method" else []))
+        style = rng.choice(["pos", "kw", "kwrev", "mixed", "fwd", "fwdpos", "kwonly", "posonly"] + (["kwself", "kwself"] if kind == "method" else []))
         out.append(Case(c.call_line(kind, style, prov=(("self" if c.scope else "-") if kind == "method" else None), omit=omit, explicit=rng.random() < 0.5), "call", {"ctx": c}))
+    # `Optional[tuple[A, B]]`: the elements are no more optional than under `tuple[A, B]` — None in an element position is a violating
+    # argument (the body does not run) / a violating result (not handed to the caller)
+    for specs, vals in (("FloatTensor,0,a;FloatTensor,0,b", "N;T,0:float32,2"), ("FloatTensor,0,a;FloatTensor,0,b", "T,0:float32,2;N"), ("FloatTensor,0,a;FloatTensor,0,a 2", "N;N"),
+                        ("FloatTensor,0,a;-;FloatTensor,0,a", "T,0:float32,2;X;N")):
+        for style in ("pos", "kw"):
+            out.append(Case(f"CALL\tfunc:{style}\t-\t\tP|t|TO|{specs}|U:{vals}", "opt-tuple"))
+            out.append(Case(f"CALL\tfunc:{style}\t-\t\tP|x|S|FloatTensor,0,a|T,0:float32,2\tP|t|TO|{specs}|U:{vals}", "opt-tuple"))
+            out.append(Case(f"CALL\tfunc:{style}\t-\t\tP|x|S|FloatTensor,0,a|T,0:float32,2\tR|TO|{specs}|U:{vals}", "opt-tuple"))
+        out.append(Case(f"CALL\tmethod:pos\t-\t\tP|t|TO|{specs}|U:{vals}", "opt-tuple"))
     # functions whose ONLY dltype hint is the return annotation (factories, loaders): no parameter at all, or parameters of plain types —
     # the result is checked all the same: the body has run once, the violating value is not handed to the caller
     rets = [("S|FloatTensor,0,a b", "T,0:float32,2"), ("S|FloatTensor,0,a b", "T,1:int32,2.3"), ("S|FloatTensor,0,3 a", "T,0:float32,2.5"), ("S|FloatTensor,0,a a", "T,2:float32,2.3"),
